@@ -220,10 +220,11 @@ def main():
     try:
         mod = importlib.import_module(q["module"])
         res = getattr(mod, q["fn"])(q.get("sel") or {}, bool(q.get("twin")), q.get("blocks") or [], float(q.get("timeout", 60)))
-    except Unsupported as e:
-        res = {"state": "UNKNOWN", "message": "translator refused: %s" % e, "args": None}
-    except BaseException as e:
-        res = {"state": "ERROR", "message": "z3q: " + "".join(traceback.format_exception(type(e), e, e.__traceback__))[-2000:], "args": None}
+    except BaseException as exc:
+        if type(exc).__name__ == "Unsupported":  # this file runs as __main__, the class is also vlib.z3q.Unsupported: compare by name
+            res = {"state": "UNKNOWN", "message": "translator refused: %s" % exc, "args": None}
+        else:
+            res = {"state": "ERROR", "message": "z3q: " + "".join(traceback.format_exception(type(exc), exc, exc.__traceback__))[-2000:], "args": None}
     res.setdefault("paths", 1)
     res.setdefault("confirmed_paths", 1 if res["state"] == "CONFIRMED" else 0)
     res.setdefault("smt_calls", 1)
